@@ -67,6 +67,9 @@ def gen_inputs(key, r):
     if base == 'distance_wei':
         A = _dir(r, n, p=float(r.choice([.2, .4, .7]))) if r.random_sample() < .6 else _und(r, n, p=float(r.choice([.3, .6])))
         return dict(G=np.abs(A))
+    if base == 'distance_wei_floyd':
+        A = _dir(r, n, p=float(r.choice([.2, .4, .7]))) if r.random_sample() < .6 else _und(r, n, p=float(r.choice([.3, .6])))
+        return dict(adjacency=np.abs(A), transform=None)
     if base == 'efficiency_wei':
         A = _dir(r, n, p=float(r.choice([.2, .4, .7]))) if r.random_sample() < .6 else _und(r, n, p=float(r.choice([.3, .6])))
         return dict(Gw=np.abs(A), local=False)
@@ -163,6 +166,8 @@ def crosscheck(contracts, seed, cases=40):
     """contracts: list of (key, Contract). returns (stats dict, violations list of (key, clause, witness, detail))."""
     stats, viol = {}, []
     for key, c in contracts:
+        if getattr(c, 'source', None):
+            continue          # corollary harness (contracts/corollaries.py): not repository code, nothing to run
         r = np.random.RandomState((seed * 1000003 + hash(key) % 100000) % (1 << 31))
         try:
             f = woven(c)
